@@ -173,6 +173,13 @@ def reaching_alias(fn: ast.FunctionDef, name: str) -> List[ast.AST]:
 # call graph over the package (name-resolved, conservative)
 
 
+BUILTIN_LIKE = {
+    "append", "extend", "pop", "get", "update", "items", "values", "keys", "insert", "remove", "index", "copy", "sort", "replace",
+    "split", "upper", "lower", "format", "total_seconds", "timestamp", "isoformat", "startswith", "endswith", "join", "strip", "count",
+    "setdefault", "clear", "add", "discard", "fromisoformat", "fromtimestamp", "__setattr__",
+}
+
+
 class CallGraph:
     def __init__(self, repo: Repo):
         self.repo = repo
@@ -232,6 +239,15 @@ class CallGraph:
             r = repo.resolve(fi.module, dotted)
             if isinstance(r, FuncInfo):
                 return [r]
+            recv = ast.unparse(base)
+            if recv in ("self._candles", "self.candle_manager", "candle_manager", "manager"):
+                cm = repo.modules.get("hexital.core.candle_manager")
+                if cm and "CandleManager" in cm.classes:
+                    m = repo.find_method(cm.classes["CandleManager"], f.attr)
+                    return [m] if m else []
+            if f.attr in BUILTIN_LIKE:
+                # container / str / datetime method on an untyped receiver: not a repository method
+                return []
             # method on some object: every method of that name in the package (conservative)
             cands = self.by_method.get(f.attr, [])
             if cands:
@@ -239,12 +255,14 @@ class CallGraph:
             self.unresolved[self.key(fi)].append(dotted)
         return []
 
-    def reachable(self, roots: Iterable[str]) -> set:
+    def reachable(self, roots: Iterable[str], stop=None) -> set:
         seen, todo = set(), list(roots)
         while todo:
             k = todo.pop()
             if k in seen or k not in self.edges:
                 continue
             seen.add(k)
+            if stop is not None and stop(self.funcs[k]):
+                continue
             todo.extend(self.edges[k])
         return seen
